@@ -42,7 +42,8 @@ SCHEDS = [
     {"policy": "rr", "q": 3, "preempt": "line"},
     {"policy": "random", "p": 0.2, "preempt": "sync"},
 ]
-LENS = [0, 1, 10, 243, 244, 245, 488, 489, 600, 732, 1000]
+# (11, 255, 499: the length byte of the last block equals NAK = 0x15)
+LENS = [0, 1, 10, 11, 243, 244, 245, 255, 488, 489, 499, 600, 732, 1000]
 
 
 def gen_plan(rng, tier, index):
